@@ -12,6 +12,8 @@ e (added)  tolerance chain: the crossing integrator and event location are no lo
 
 d (round 3)  apply_correction on an orbit that already holds a state 1e-9 away: state, period and cache all updated (exact numpy allclose)
 e (round 3)  the crossing search and the operators' STM run in the configured time direction (C11.e direction rule re-filed; call-site rule)
+e (round 4)  options chain: create_problem + to_backend_inputs interpreted with symbolic options (tolerance, limits, direction, order, steps, indices, event reach the operators / the request);
+   e-crossing: C11.e's wrapper rules re-filed (the end of the search window is never a hit)
 """
 from __future__ import annotations
 
@@ -74,6 +76,9 @@ def run(tier):
     # the public facade binds every argument to the service parameter it is meant for (nominal swap rule, rules/common.py)
     from . import common as _common
     _common.facade_bindings(chk, "C05.d-facade", ['hiten.system.orbits'], floor=5)
+    # the half period is a genuine crossing: reaching the end of the search window is "no crossing", never a hit (C11.e's wrapper rules re-filed)
+    from .common import Relabel as _Relabel
+    c11._e_wrapper(_Relabel(chk, {"C11.e": "C05.e-crossing"}))
     return chk
 
 
